@@ -151,9 +151,13 @@ GroupPlan(fs, c, o, G) ==
 
 NumberOfBulks(fs, c, o, G) == SumSeq([f \in 1..Len(fs) |-> CeilDiv(GDocs(o, f, G), c.bulk)])
 
+(* ceil(b * num / den) in exact integer arithmetic: the number of bulks a group with b bulks hands out when the ingest *)
+(* percentage is 100 * num / den per cent                                                                           *)
+PctBulks(b, num, den) == CeilDiv(b * num, den)
+
 (* total_bulks = ceil(all_bulks * ingest_percentage / 100); the generator itself ends after Len(plan) bulks *)
 GroupLimit(fs, c, o, G) ==
-    Least(CeilDiv(NumberOfBulks(fs, c, o, G) * c.num, c.den), Len(GroupPlan(fs, c, o, G)))
+    Least(PctBulks(NumberOfBulks(fs, c, o, G), c.num, c.den), Len(GroupPlan(fs, c, o, G)))
 
 (* BatchNote: IndexDataReader reads batch-size documents in bulks of bulk-size and bulk_generator hands out the bulks of a *)
 (* batch one by one: the sequence of bulks does not depend on c.mult.                                                    *)
@@ -320,7 +324,7 @@ Paired == Running => \A g \in Groups : \A k \in 1..Len(ghist[g]) : ghist[g][k].u
 (* Full(g) = the bulks (as runs) the group hands out in a run with ingest percentage 100 *)
 PctStopWith(Full(_)) ==
     Running => \A g \in Groups :
-        LET cnt == CeilDiv(Len(Full(g)) * cfg.num, cfg.den)
+        LET cnt == PctBulks(Len(Full(g)), cfg.num, cfg.den)
         IN /\ Len(ghist[g]) <= cnt
            /\ (\E c \in cfg.groups[g] : stopped[c]) => Len(ghist[g]) = cnt
            /\ [k \in 1..Len(ghist[g]) |-> ghist[g][k].runs] = SubSeq(Full(g), 1, Len(ghist[g]))
